@@ -1,5 +1,6 @@
 import Driver.Util
 import Sqfs.Model.Unpack
+import Sqfs.Model.UnpackRepaired
 /-
 Line protocol of `sqfsmodel c06` (one request per line, one answer line):
 
@@ -318,10 +319,12 @@ def doMonitor (toks : List String) : Option String :=
   | _ => none
 
 /-- `unpackMain` on the tree `get_full_hierarchy` returns -/
-def doMain (fl : Flags × TreeFlags) (sub : TNode) (root : Option Bytes) (cwd : PathC) (ents : List (PathC × Node))
+def doMain (repaired : Bool) (fl : Flags × TreeFlags) (sub : TNode) (root : Option Bytes) (cwd : PathC) (ents : List (PathC × Node))
     (faults : List (Nat × Errno)) : String :=
   let t := decode fl.2 sub
-  let r := unpackMain ordByLoc fl.1 t root (faultsOf faults) cwd (fsOf ents)
+  -- `mainr`: the repaired `create_node` (mkdir/EEXIST accepted only if `lstat` says directory), `Sqfs/Model/UnpackRepaired.lean`
+  let r := if repaired then unpackMainR ordByLoc fl.1 t root (faultsOf faults) (fun _ => false) cwd (fsOf ents)
+           else unpackMain ordByLoc fl.1 t root (faultsOf faults) cwd (fsOf ents)
   let planPaths := match treeSort t with
     | .error _ => []
     | .ok t' => (planSorted ordByLoc fl.1 t').syscalls.map (fun sc => r.cwd ++ splitSlash sc.path)
@@ -331,7 +334,7 @@ def doMain (fl : Flags × TreeFlags) (sub : TNode) (root : Option Bytes) (cwd : 
     ++ trTok r.pre ++ s!" tr:{r.trace.length}" ++ trTok r.trace
     ++ " |" ++ String.join (keys.map (fun k => " " ++ keyTok k ++ "@" ++ nodeTok (r.fs k)))
 
-def doMainLine (toks : List String) : Option String :=
+def doMainLine (repaired : Bool) (toks : List String) : Option String :=
   match toks with
   | fl :: up :: root :: cwd :: n :: rest => do
     let fl ← parseFlags fl
@@ -350,7 +353,7 @@ def doMainLine (toks : List String) : Option String :=
       | some up =>
         match treeFor up t with
         | .error msg => pure msg
-        | .ok sub => pure (doMain fl sub root cwd ents faults)
+        | .ok sub => pure (doMain repaired fl sub root cwd ents faults)
     | [] => none
   | _ => none
 
@@ -373,7 +376,8 @@ def step (line : String) : String :=
         | .ok o => doExec o)
      | _, _, _ => "bad-op")
   | "monitor" :: toks => (doMonitor toks).getD "bad-op"
-  | "main" :: toks => (doMainLine toks).getD "bad-op"
+  | "main" :: toks => (doMainLine false toks).getD "bad-op"
+  | "mainr" :: toks => (doMainLine true toks).getD "bad-op"
   | ["mkdirp", p] =>
     (match fromHex p with
      | none => "bad-op"
